@@ -94,6 +94,44 @@ func fnShort(fn *ssa.Function) string {
 }
 
 // topFunction maps closures to the function they are declared in.
+// onlyCalledFrom: fn is an unexported helper of the package whose every static caller is an allowed writer (or again
+// such a helper): a write extracted into a helper is still a write of the allowed functions. A function whose
+// address is taken (used as a value) or that is exported may be called from anywhere and is not accepted.
+func (p *Program) onlyCalledFrom(fn *ssa.Function, sc *StaticCheck, seen map[*ssa.Function]bool) bool {
+	if seen[fn] {
+		return true
+	}
+	seen[fn] = true
+	if fn.Object() == nil || fn.Object().Exported() {
+		return false
+	}
+	callers := 0
+	for _, g := range p.pkgFunctions(sc.PkgPath) {
+		for _, b := range g.Blocks {
+			for _, ins := range b.Instrs {
+				if ci, ok := ins.(ssa.CallInstruction); ok && ci.Common().StaticCallee() == fn {
+					callers++
+					top := topFunction(g)
+					if !contains(sc.Allowed, fnShort(top)) && !p.onlyCalledFrom(top, sc, seen) {
+						return false
+					}
+					continue
+				}
+				// any other use of the function value (closure, method value, interface conversion)
+				var ops []*ssa.Value
+				for _, op := range ins.Operands(ops) {
+					if op != nil && *op == ssa.Value(fn) {
+						if _, isCall := ins.(ssa.CallInstruction); !isCall {
+							return false
+						}
+					}
+				}
+			}
+		}
+	}
+	return callers > 0
+}
+
 func topFunction(fn *ssa.Function) *ssa.Function {
 	for fn.Parent() != nil {
 		fn = fn.Parent()
@@ -171,7 +209,7 @@ func (p *Program) runStatic(sc *StaticCheck) *Obligation {
 							f = fieldName(c.Args[0])
 						}
 					}
-					if f != "" && contains(sc.Subject, f) && !contains(sc.Allowed, top) {
+					if f != "" && contains(sc.Subject, f) && !contains(sc.Allowed, top) && !p.onlyCalledFrom(topFunction(fn), sc, map[*ssa.Function]bool{}) {
 						note(fn, "writes "+f)
 					}
 				}
